@@ -235,7 +235,11 @@ static void inc_lexically_normal (const char* abs_base, const char *name, char *
   /* process .. and . in the include header name */
   while (*from)
     {
-      if (!strncmp (from, "../", 3))
+      if (*from == '/')
+        {
+          from++;		/* a run of slashes is one separator */
+        }
+      else if (!strncmp (from, "../", 3) || !strcmp (from, ".."))
         {
           if (*dest == 0)	/* including from above mudlib is NOT allowed */
             break;
@@ -244,11 +248,11 @@ static void inc_lexically_normal (const char* abs_base, const char *name, char *
             *dest = 0;
           else
             *slash = 0;
-          from += 3;		/* skip "../" */
+          from += 2;		/* skip ".." */
         }
-      else if (!strncmp (from, "./", 2))
+      else if (!strncmp (from, "./", 2) || !strcmp (from, "."))
         {
-          from += 2;
+          from += 1;
         }
       else
         {			/* append first component to dest */
